@@ -1,4 +1,7 @@
 import SkopsModel.Io.Heap
+import SkopsModel.Io.GetTree
+import SkopsModel.Lemmas.GetTreeInv
+import SkopsModel.Generated.Specs
 import SkopsModel.Generated.Facts
 /-!
 # C06 — The sharing structure of the object graph is preserved
@@ -132,14 +135,50 @@ theorem without_pin_ids_collide :
 
 /-- generated flow facts: `get_state` memoizes first and takes `__id__` from `memoize`; array / sparse
 members are named after the memoized id and written once; the memo is cleared only after `get_state`
-returned -/
+returned; `SaveContext.memoize` keeps a reference to *every* object it is given (exact body), and the load memo is
+a plain dict from id to node -/
 theorem flow_facts :
     Generated.facts.getStateMemoizesFirst = true ∧ Generated.facts.idFromMemoize = true ∧
     Generated.facts.memberNameFromMemoize = true ∧ Generated.facts.clearMemoAfterGetState = true ∧
-    Generated.facts.memberWrittenOnce = true := by decide
+    Generated.facts.memberWrittenOnce = true ∧ Generated.facts.memoizeKeepsReference = true ∧
+    Generated.facts.loadMemoIsPlainDict = true := by decide
 
 /-! non-vacuity: a history with a shared object and recycled temporaries -/
 example : ∃ s, run true {} [.alloc 1 10, .visit 1, .alloc 2 11, .visit 2, .alloc 3 12, .free 3, .alloc 4 12, .visit 4, .visit 1] = some s ∧
     s.ids.length = 4 := ⟨_, rfl, rfl⟩
+
+end Skops.Properties.C06
+
+/-! ## load side: one node per `__id__` -/
+namespace Skops.Properties.C06
+open Skops.Io
+
+/-- every registered loader memoizes its node under the archive's id, except the one that *reads* the memo
+(`CachedNode`) -/
+theorem all_kinds_memoize : Generated.table.kinds.all (fun k => k.memoize || k.memoRef) = true := by decide +kernel
+
+/-- **load side, second reference**: a state whose `__id__` the memo already maps to a finished node yields that very
+node, builds nothing and leaves the load state as it is -/
+theorem second_reference_shares (env : Env) (fuel : Nat) (kvs : JO) (extra : List String) (st : LoadSt) (n : Node)
+    (hk : ((kvs.get? "__id__").getD .null).pyKey ≠ PyKey.unhashable)
+    (hm : memoGet st.memo ((kvs.get? "__id__").getD .null).pyKey = some (.done n)) :
+    getTree env (fuel + 1) (.obj kvs) extra st = .ok (n, st) := by
+  rw [getTree]
+  simp only [hk, if_false, hm]
+
+/-- **load side, first reference**: a memoizing kind that builds a node for a state with a truthy `__id__` leaves that
+node in the memo under that id -/
+theorem first_reference_memoized (env : Env) (fuel ki : Nat) (k : KindSpec) (state : J) (extra : List String) (idv : J)
+    (st st' : LoadSt) (node : Node) (hmemo : k.memoize = true) (ht : idv.truthy = true)
+    (h : buildNode env fuel ki k state extra idv st = .ok (node, st')) :
+    memoGet st'.memo idv.pyKey = some (.done node) := by
+  rw [buildNode] at h
+  simp only [hmemo, ht, Bool.and_self, if_true] at h
+  repeat' split at h
+  all_goals (try cases h)
+  all_goals simp [memoGet_memoSet]
+/-- the hypotheses of `second_reference_shares` are satisfiable -/
+example : memoGet ({ memo := [((J.int 7).pyKey, .done (Node.mk 0 0 (.str "m") (.str "c") [] .nil .no))] } : LoadSt).memo (J.int 7).pyKey
+    = some (.done (Node.mk 0 0 (.str "m") (.str "c") [] .nil .no)) := by simp [memoGet]
 
 end Skops.Properties.C06
